@@ -1,7 +1,8 @@
 """Mechanical backward slice of one repo function on a set of tracked targets (used when the tail of a function is
 outside the executor's subset but the property clause only concerns values computed before it).
 
-Module path syntax:  <file.py>#slice:<Class.method>:<target>,<target>,...   (targets: local names or `self.attr`)
+Module path syntax:  <file.py>#slice:<Class.method>:<target>,<target>,...[:<callee>,<callee>]   (targets: local names or
+`self.attr`; optional callees = repo constructors ASSUMED not to change their arguments, listed as an assumption)
 
 Rule, applied to the top-level statements of the function from the last to the first (`with` blocks are entered):
   keep  an assignment with a target whose root (the name, `self.attr`, or the base of a subscript) is needed; its reads
@@ -48,10 +49,15 @@ def _reads(node):
     return out
 
 
+_ALLOWED = set()      # extra callee names accepted as non-mutating (4th field of the module path; reported as an assumption)
+
+
 def _pure_rhs(v):
     for n in ast.walk(v):
         if isinstance(n, ast.Call):
             f = n.func
+            if isinstance(f, ast.Name) and f.id in (_ALLOWED | {'range', 'len'}):
+                continue
             if not (isinstance(f, ast.Attribute) and isinstance(f.value, ast.Name) and f.value.id == 'np'):
                 return False
     return True
@@ -93,8 +99,10 @@ def _slice(stmts, needed, dropped):
     return out
 
 
-def apply(tree, qual, targets):
+def apply(tree, qual, targets, allowed=()):
     """Rewrite function `qual` (Class.method or function) of the module tree; return the dropped line numbers."""
+    _ALLOWED.clear()
+    _ALLOWED.update(allowed)
     parts = qual.split('.')
     body = tree.body
     node = None
